@@ -331,9 +331,44 @@ func Le(a, b *Term) *Term { return cmpOp("<=", a, b) }
 func Gt(a, b *Term) *Term { return cmpOp(">", a, b) }
 func Ge(a, b *Term) *Term { return cmpOp(">=", a, b) }
 
+// splitConst views t as base + c.
+func splitConst(t *Term) (*Term, *big.Int) {
+	if t.IsConstInt() {
+		return nil, t.I
+	}
+	if t.Op == "+" && t.Args[1].IsConstInt() {
+		return t.Args[0], t.Args[1].I
+	}
+	if t.Op == "-" && t.Args[1].IsConstInt() {
+		return t.Args[0], new(big.Int).Neg(t.Args[1].I)
+	}
+	return t, big.NewInt(0)
+}
+
+func addConst(base *Term, c *big.Int) *Term {
+	if base == nil {
+		return IntB(c)
+	}
+	if c.Sign() == 0 {
+		return base
+	}
+	if c.Sign() < 0 {
+		return mk(&Term{Op: "-", Args: []*Term{base, IntB(new(big.Int).Neg(c))}, Sort: SInt})
+	}
+	return mk(&Term{Op: "+", Args: []*Term{base, IntB(c)}, Sort: SInt})
+}
+
 func Add(a, b *Term) *Term {
 	if a.IsConstInt() && b.IsConstInt() {
 		return IntB(new(big.Int).Add(a.I, b.I))
+	}
+	if b.IsConstInt() {
+		base, c := splitConst(a)
+		return addConst(base, new(big.Int).Add(c, b.I))
+	}
+	if a.IsConstInt() {
+		base, c := splitConst(b)
+		return addConst(base, new(big.Int).Add(c, a.I))
 	}
 	if a.IsConstInt() && a.I.Sign() == 0 {
 		return b
@@ -346,6 +381,17 @@ func Add(a, b *Term) *Term {
 func Sub(a, b *Term) *Term {
 	if a.IsConstInt() && b.IsConstInt() {
 		return IntB(new(big.Int).Sub(a.I, b.I))
+	}
+	if b.IsConstInt() {
+		base, c := splitConst(a)
+		return addConst(base, new(big.Int).Sub(c, b.I))
+	}
+	{
+		ba, ca := splitConst(a)
+		bb, cb := splitConst(b)
+		if ba != nil && bb != nil && ba == bb {
+			return IntB(new(big.Int).Sub(ca, cb))
+		}
 	}
 	if b.IsConstInt() && b.I.Sign() == 0 {
 		return a
